@@ -36,6 +36,7 @@ type Net struct {
 
 type linkState struct {
 	cut      bool          // dials fail (after timeout), established connections carry nothing
+	muteOut  bool          // outbound blocked: dials from->to fail, what from writes on connections it dialled is held; connections dialled by to work both ways
 	stall    bool          // bytes written are held until released
 	delay    time.Duration // added latency per write
 	frag     int           // if >0 reads return at most 1..frag bytes
@@ -230,7 +231,7 @@ func (n *Net) Dial(from, address string, timeout time.Duration) (net.Conn, error
 	}
 	ls := n.link(from, l.Label)
 	back := n.link(l.Label, from)
-	if ls.cut || back.cut {
+	if ls.cut || back.cut || ls.muteOut {
 		// a partitioned SYN gets no answer: wait out the timeout
 		n.mu.Unlock()
 		d := time.Until(deadline)
@@ -372,7 +373,7 @@ func (c *Conn) Write(p []byte) (int, error) {
 	if ls.delay > 0 {
 		ch.readyAt = time.Now().Add(ls.delay)
 	}
-	if ls.stall || ls.cut {
+	if ls.stall || ls.cut || (ls.muteOut && !c.Server) {
 		ch.held = true
 		atomic.AddInt64(&n.Stats.Stalled, 1)
 	} else if len(c.peer.in) > 0 && c.peer.in[len(c.peer.in)-1].held {
@@ -479,6 +480,15 @@ func (n *Net) Cut(from, to string, on bool) {
 	n.link(from, to).cut = on
 }
 
+// MuteOut blocks what from initiates towards to (an outbound rule of a
+// firewall): its dials time out and whatever it writes on connections it
+// dialled is held, while connections that to dialled work in both directions.
+func (n *Net) MuteOut(from, to string, on bool) {
+	n.mu.Lock()
+	defer n.mu.Unlock()
+	n.link(from, to).muteOut = on
+}
+
 // Stall holds (on) or keeps holding the bytes written from -> to.
 func (n *Net) Stall(from, to string, on bool) {
 	n.mu.Lock()
@@ -493,7 +503,7 @@ func (n *Net) Release(from, to string, drop bool) {
 	n.mu.Lock()
 	defer n.mu.Unlock()
 	ls := n.link(from, to)
-	if ls.stall || ls.cut {
+	if ls.stall || ls.cut || ls.muteOut {
 		return
 	}
 	for c := range n.conns {
@@ -600,7 +610,7 @@ func (n *Net) HealAll(drop bool) {
 	n.mu.Lock()
 	var ks [][2]string
 	for k, l := range n.links {
-		l.cut, l.stall, l.delay, l.breakAt, l.stallAt, l.cutAfter = false, false, 0, 0, 0, 0
+		l.cut, l.muteOut, l.stall, l.delay, l.breakAt, l.stallAt, l.cutAfter = false, false, false, 0, 0, 0, 0
 		ks = append(ks, k)
 	}
 	n.mu.Unlock()
